@@ -56,7 +56,8 @@ def _expected_k(self, bs, cset):
     if type(self).__name__ == "SubSamplingWrapper":
         mc = self.max_candidates
         if isinstance(mc, float):
-            mc = math.ceil(len(cset) * mc)
+            from fractions import Fraction
+            mc = math.ceil(Fraction(repr(mc)) * len(cset))      # exact: 25 * 0.28 is 7, not 7.000000000000001
         if isinstance(mc, int):
             k = min(k, min(mc, len(cset)))
     return k
